@@ -36,6 +36,7 @@ class FnContract:
     yields: dict[int, list[str]] = field(default_factory=dict)  # generator cut points
     ghost_post: list[str] = field(default_factory=list)
     gen: dict | None = None           # generator (coroutine) verification spec
+    owners: list[str] = field(default_factory=list)   # properties whose proof this function's unlabelled obligations support
 
     def label(self, i: int) -> str:
         if i < len(self.ensures_labels) and self.ensures_labels[i]:
@@ -108,10 +109,22 @@ class Spec:
         self.lemmas.extend(other.lemmas)
 
 
+_TAG = __import__("re").compile(r"^\s*((?:C[0-9]{2,3})(?:,C[0-9]{2,3})*)\|\s*(.*)$", __import__("re").S)
+
+
+def split_tags(clause: str):
+    """'C03,C04| expr' -> (('C03','C04'), 'expr');  'expr' -> (None, 'expr')"""
+    m = _TAG.match(clause)
+    if not m:
+        return None, clause
+    return tuple(m.group(1).split(",")), m.group(2)
+
+
 _parse_cache: dict[str, ast.AST] = {}
 
 
 def parse_expr(src: str) -> ast.AST:
     if src not in _parse_cache:
-        _parse_cache[src] = ast.parse(src.strip(), mode="eval").body
+        _tags, body = split_tags(src)
+        _parse_cache[src] = ast.parse(body.strip(), mode="eval").body
     return _parse_cache[src]
